@@ -297,6 +297,23 @@ def trunc_pad(s, lead):
 
 # ---------------------------------------------------------------------------------------------
 
+def _b58dec(s):
+    n = 0
+    for c in s:
+        n = n * 58 + B58.index(c)
+    b = n.to_bytes((n.bit_length() + 7) // 8, 'big')
+    return b'\x00' * (len(s) - len(s.lstrip('1'))) + b
+
+
+def _b58enc(b):
+    n = int.from_bytes(b, 'big')
+    out = ''
+    while n:
+        n, r = divmod(n, 58)
+        out = B58[r] + out
+    return '1' * (len(b) - len(b.lstrip(b'\x00'))) + out
+
+
 def run(replay=None):
     ref.selftest()
     common.fresh_bitcoinlib_env()
@@ -515,6 +532,13 @@ def run(replay=None):
             muts += [('subst-confusable', s[:i] + c.upper() + s[i + 1:]) for i, c in enumerate(s) if c in 'oi'][:2]
             muts += rng.sample(single_mutants(s, list(B58), B58_EXTRA, rng, False, nsub=1, nins=1), 30 if thorough else 8)
             muts += [('drop-back', s[:-1]), ('pad-back', s + '1'), ('drop-front', s[1:]), ('pad-front', '1' + s)]
+            # the same payload under another flag byte, checksum recomputed: BIP38 defines c0 / e0 only (reserved bits zero); the
+            # flag is not part of what is encrypted, so only the decoder's own test can refuse these
+            raw38 = _b58dec(s)
+            for fl in ([0xe8, 0xf0, 0xe1, 0xff, 0xc8, 0xd0, 0xc1, 0x20, 0x00, 0xa0, 0x60] if thorough else [0xe8, 0xc8, 0xff, 0x20]):
+                if fl != raw38[2]:
+                    body38 = raw38[:2] + bytes([fl]) + raw38[3:-4]
+                    muts.append(('flag-byte-%02x' % fl, _b58enc(body38 + ref.sha256d(body38)[:4])))
             seen = {s}
             for j, (op, m) in enumerate(muts):
                 if m not in seen:
